@@ -175,6 +175,12 @@ func checkLiveLoop(p *Prog, r *Report, live *ssa.Function) {
 				if c, ok := s.Resolve(rc.Chan).(*ssa.Call); ok && calleeFull(&c.Call) == "time.After" && s.Has(c) {
 					timerCall, waited = c, true
 				}
+				// timer := time.NewTimer(d) created on this path; <-timer.C
+				if b, f, isF := fieldLoad(s.Resolve(rc.Chan)); isF && f == "C" {
+					if c, ok := s.Resolve(b).(*ssa.Call); ok && calleeFull(&c.Call) == "time.NewTimer" && s.Has(c) {
+						timerCall, waited = c, true
+					}
+				}
 			}
 			for _, e := range s.Events {
 				if e.Kind == EvCall && calleeFull(e.Call) == "time.Sleep" && e.Ord < gen.Ord {
@@ -235,23 +241,33 @@ func checkLiveWiring(p *Prog, r *Report, live *ssa.Function) {
 		r.Viol("C19.R3", "live wiring", "-", "some command wires the live generator", "NewLiveRequestGenerator is never called")
 		return
 	}
-	for _, cs := range sites {
-		fn := cs.Parent()
-		name := FuncName(fn)
-		pos := p.Pos(fn.Pos())
-		// the packet source sink in the same function
-		var sink *ssa.Call
-		for _, b := range fn.Blocks {
-			for _, in := range b.Instrs {
-				if c, ok := in.(*ssa.Call); ok && calleeFull(&c.Call) == modPath+"/pkg/scan.NewPacketSource" {
-					sink = c
+	// the functions that hand a generator to NewPacketSource and, in their own body or in a small
+	// builder helper expanded in place, construct the live generator
+	var sinkFns []*ssa.Function
+	for _, fn := range p.SrcFuncs() {
+		if len(callInstrs(fn, modPath+"/pkg/scan.NewPacketSource")) == 0 {
+			continue
+		}
+		hit := false
+		for _, s := range PathsInl(fn).Segs {
+			for _, e := range s.Events {
+				if e.Kind == EvCall && StaticCallee(e.Call) == ctor {
+					hit = true
 				}
 			}
 		}
-		if sink == nil {
-			r.Undecided("C19.R3", name, pos, "the wired generator reaches NewPacketSource in the same function", "no sink")
-			continue
+		if hit {
+			sinkFns = append(sinkFns, fn)
 		}
+	}
+	if len(sinkFns) == 0 {
+		r.Undecided("C19.R3", "live wiring", "-", "the live generator is constructed in (or in a helper of) a function that builds the packet source", "no such function")
+		return
+	}
+	for _, fn := range sinkFns {
+		name := FuncName(fn)
+		pos := p.Pos(fn.Pos())
+		sink := callInstrs(fn, modPath+"/pkg/scan.NewPacketSource")[0]
 		k := 0
 		for _, s := range PathsInl(fn).Segs {
 			if !s.Has(sink) {
